@@ -106,7 +106,23 @@ CONFIG_TRUST = [
     "library-defined field validators (go-playground/validator built-ins, time.ParseDuration, humanize.ParseBytes, regexp, url.Parse) are validity bits per field; gopkg.in/yaml.v2 round trip is sampled only",
 ]
 
+def sig_c15(rec):
+    case = rec.get("case") or {}
+    return "proxy:%s %s?%s [%s] %s" % (case.get("method"), case.get("path"), case.get("query"), case.get("label"), "|".join(case.get("client_headers") or []))[:200]
+
+
 PROPS = {
+    "C15": {
+        "families": {"proxy": {"quick": 400, "thorough": 8000, "search": 2000}},
+        "signature": sig_c15,
+        "trusted_base": [
+            "model coq/Model/Proxy.v is hand-written from server/proxy.go (NewProxy) and location.go (AddRequestHeader/AddResponseHeader/AddQuery); tied by the proxy family (real middleware, real elton proxy + net/http transport, recording origin)",
+            "the location's path rewriter (user regular expressions) is a Section variable: its image is observed and passed to the model; hop-by-hop stripping, X-Forwarded-For, User-Agent suppression, transport-added Accept-Encoding and URL retargeting are httputil.ReverseProxy / net/http behaviour outside the projection",
+            "the origin answers 304/206/412 only to requests carrying the corresponding conditional or Range header (hypothesis of never_store_partial; the harness origin is http.ServeContent)",
+        ],
+        "assumptions": ["the location does not itself add conditional or Range request headers"],
+        "explanation": "upstream_request / client_after / response theorems for all requests, labels, locations; never_store_partial for conforming origins.",
+    },
     "C17": {
         "families": {"config": {"quick": 400, "thorough": 8000, "search": 2000}},
         "signature": lambda rec: "config:" + str((rec.get("case") or {}).get("kind", "")) + str((rec.get("case") or {}).get("config"))[:170],
